@@ -315,6 +315,18 @@ def rule_c05_exploitability(prog: Program, col: Collector) -> None:
                         prods.add(("UB" if x == UB else "LB", "mask" if y == M else "1-mask"))
     if not okv and len(prods) == 2 and prods != {("UB", "mask"), ("LB", "1-mask")}:
         swapped = True
+    order_stat = False
+    for r in rets:
+        for t in subterms(r.value):
+            is_red = (t[0] == "call" and t[1][0] == "attr" and t[1][2] in ("max", "min")) or is_call_to(t, "numpy.max", "numpy.min", "numpy.maximum", "numpy.minimum", "numpy.sort")
+            if is_red and any(s2[0] == "call" and s2[1][0] == "attr" and s2[1][1] == G and s2[1][2] in ("get_intervals", "get_interval", "get_upper_bounds", "get_lower_bounds")
+                              for s2 in subterms(t)):
+                order_stat = True
+    if order_stat and not okv:
+        col.check(False, gv.where(), gv.short, "the accessor reads the UPPER and LOWER columns themselves (found max/min over the two bounds)", construct="mgg-order-statistic",
+                  necessity="max(lower, upper) is the upper bound only when lower <= upper: for an inverted interval the accessor returns |gap| instead of the signed gap, "
+                            "and the identity with the weighted gap fails")
+        swapped = True
     if not okv and not swapped and not any(has_subterm(r.value, UB) for r in rets):
         col.undecidable(gv.where(), gv.short, "vector accessor not of the form UB*mask + LB*(1-mask) / np.where(mask, UB, LB)")
     else:
